@@ -29,14 +29,14 @@ type KVStep struct {
 }
 
 type KVCase struct {
-	Mode   string   `json:"mode"`  // lww callback custom
-	Codec  string   `json:"codec"` // gob json
-	Format string   `json:"format"`
-	BF     int      `json:"bf"`
-	NH     int      `json:"nh"`
-	NKeys  int      `json:"nkeys"`
-	Steps  []KVStep `json:"steps"`
-	NoSteer bool    `json:"no_steer,omitempty"`
+	Mode    string   `json:"mode"`  // lww callback custom
+	Codec   string   `json:"codec"` // gob json
+	Format  string   `json:"format"`
+	BF      int      `json:"bf"`
+	NH      int      `json:"nh"`
+	NKeys   int      `json:"nkeys"`
+	Steps   []KVStep `json:"steps"`
+	NoSteer bool     `json:"no_steer,omitempty"`
 }
 
 func genKVCase(t *rapid.T) KVCase {
